@@ -1,10 +1,10 @@
 #!/bin/sh
 # usage: tools/eval_seed_pair.sh Cnn [extra-checks]   evaluates /tmp/seedout_Cnn/{patch,demo}_{A,B} with tools/eval_seed.py,
 # then removes the seed-writer's scratch worktrees /tmp/seed_Cnn_{A,B}.
-P=$1; CH=${2:-$1}; D=/tmp/seedout_$P
+P=$1; CH=${2:-$1}; LET=${3:-"A B"}; D=${4:-/tmp/seedout_$P}
 cd "$(dirname "$0")/.."
-EXTRA=$(ls $D/*.py $D/*.pddl $D/*.txt 2>/dev/null | grep -v '/demo_[AB].py$\|passed\|base_' | tr '\n' ',')
-for X in A B; do
+EXTRA=$(ls $D/*.py $D/*.pddl $D/*.txt 2>/dev/null | grep -v '/demo_[ABCD].py$\|passed\|base_' | tr '\n' ',')
+for X in $LET; do
   [ -f $D/patch_$X.diff ] || continue
   S=$(python3-vt -c "import json,sys; m=json.load(open('$D/meta.json')); print(m.get('$X',{}).get('summary',''))" 2>/dev/null)
   N=$(python3-vt -c "import json,sys; m=json.load(open('$D/meta.json')); print(m.get('$X',{}).get('needs_to_manifest',''))" 2>/dev/null)
